@@ -67,11 +67,17 @@ def run_one(meta, repo, tier="quick"):
         shutil.rmtree(work, ignore_errors=True)
 
 
-def cross_negatives(repo=None, jobs=8, only_props=None, exclude_own=False):
-    """every behaviour-preserving mutant must be silent under EVERY claimed property, not only the one it was written for"""
+def cross_negatives(repo=None, jobs=8, only_props=None, exclude_own=False, sample=None, seed=0):
+    """every behaviour-preserving mutant must be silent under EVERY claimed property, not only the one it was written for.
+    `sample`: run only that many of them, a window that rotates with `seed` (the thorough tier of one property; the whole matrix is
+    `./vf.sh selftest --cross-negatives`)"""
     repo = repo or X.REPO
     metas = [parse(p) for p in sorted(glob.glob(os.path.join(VERIF, "mutants", "*.patch")))]
     metas = [m for m in metas if m.get("kind") == "negative"]
+    cross_negatives.last_total = len(metas)
+    if sample and len(metas) > sample:
+        k = (int(seed) * sample) % len(metas)
+        metas = (metas + metas)[k:k + sample]
     props = [c["property_id"] for c in json.load(open(os.path.join(VERIF, "MANIFEST.json")))["checks"]]
     if only_props:
         props = [p for p in props if p in only_props]
@@ -96,7 +102,7 @@ def cross_negatives(repo=None, jobs=8, only_props=None, exclude_own=False):
     return bad
 
 
-def selftest(repo=None, only=None, props=None, jobs=8, tier="quick"):
+def selftest(repo=None, only=None, props=None, jobs=8, tier="quick", neg_sample=None, seed=0):
     repo = repo or X.REPO
     metas = [parse(p) for p in sorted(glob.glob(os.path.join(VERIF, "mutants", "*.patch")))]
     seeded = sorted(glob.glob(os.path.join(VERIF, "seeded", "*", "patch.diff")))
@@ -110,6 +116,13 @@ def selftest(repo=None, only=None, props=None, jobs=8, tier="quick"):
         metas = [m for m in metas if re.search(only, m["name"])]
     if props:
         metas = [m for m in metas if m.get("property") in props]
+    if neg_sample:
+        # the thorough tier of one property: every positive and seeded change, and a rotating window of its behaviour-preserving ones
+        negs = [m for m in metas if m.get("kind") == "negative"]
+        if len(negs) > neg_sample:
+            k = (int(seed) * neg_sample) % len(negs)
+            keep = {id(m) for m in (negs + negs)[k:k + neg_sample]}
+            metas = [m for m in metas if m.get("kind") != "negative" or id(m) in keep]
     results = []
     with concurrent.futures.ThreadPoolExecutor(max_workers=jobs) as ex:
         for r in ex.map(lambda m: run_one(m, repo, tier), metas):
